@@ -1,4 +1,5 @@
 import PyomaVerif.Lemmas.GaussInv
+import PyomaVerif.Props.C04
 /-!
 # C04 — the driver's inverse `gaussInv` satisfies the contract of `np.linalg.inv`
 (depth round, audit gap 10 / C04 gap 3)
@@ -70,6 +71,43 @@ theorem C04_gaussInv_contract : InvContract (fun G : Mat K => (gaussInv G).getD 
 theorem C04_gaussInv_hsound : ∀ (G W : Mat K), gaussInv G = some W → IsLeftInv W G :=
   C04_gaussInv_sound
 
+
+/-! ## the merge theorem for the checked model the driver runs -/
+section checked
+variable {T D F : Type} [One T] [Div T]
+variable {sd : Estimator T D F K} {fs : T} {nxseg : Nat} {pov : T}
+  {method : SdMethod} {n : Nat} {Y : Nat → Setup D}
+
+/-- **One recording cut into setups, for the executable model with its own inverse**: whenever
+    `sdPreGERchecked sd gaussInv …` (what the driver op `sd_preger` runs, with the logged
+    estimator calls as `sd`) returns a value, that value is the single-setup estimate of
+    `[refs; mov₀; mov₁; …]` against `refs` — no `InvContract` hypothesis and no `method`
+    hypothesis left (a returned value implies a known method and `n ≠ 0`). -/
+theorem C04_identical_refs_checked (hs : SdShape sd) (hp : Pairwise sd) (hn : (n : K) ≠ 0)
+    (hR : ∀ ii, ii < n → (Y ii).ref = (Y 0).ref)
+    (hG : ∀ f, f < (sd (sdArgs fs nxseg method pov)
+                  (Mat.vstack2 (Y 0).ref (Mat.vstackFn n (fun k => (Y k).mov))) (Y 0).ref).S.n2 →
+      ∃ W, IsLeftInv W ⟨(Y 0).ref.r, (Y 0).ref.r, fun i j =>
+        (sd (sdArgs fs nxseg method pov)
+          (Mat.vstack2 (Y 0).ref (Mat.vstackFn n (fun k => (Y k).mov))) (Y 0).ref).S.e i j f⟩)
+    (out : SdOut F K) (h : sdPreGERchecked sd gaussInv fs nxseg pov method n Y = .ok out) :
+    out.freq = (sd (sdArgs fs nxseg method pov)
+            (Mat.vstack2 (Y 0).ref (Mat.vstackFn n (fun k => (Y k).mov))) (Y 0).ref).freq
+    ∧ out.S.n0 = (sd (sdArgs fs nxseg method pov)
+            (Mat.vstack2 (Y 0).ref (Mat.vstackFn n (fun k => (Y k).mov))) (Y 0).ref).S.n0
+    ∧ out.S.n1 = (sd (sdArgs fs nxseg method pov)
+            (Mat.vstack2 (Y 0).ref (Mat.vstackFn n (fun k => (Y k).mov))) (Y 0).ref).S.n1
+    ∧ out.S.n2 = (sd (sdArgs fs nxseg method pov)
+            (Mat.vstack2 (Y 0).ref (Mat.vstackFn n (fun k => (Y k).mov))) (Y 0).ref).S.n2
+    ∧ ∀ i j f, i < out.S.n0 → j < out.S.n1 → f < out.S.n2 →
+        out.S.e i j f = (sd (sdArgs fs nxseg method pov)
+              (Mat.vstack2 (Y 0).ref (Mat.vstackFn n (fun k => (Y k).mov))) (Y 0).ref).S.e i j f := by
+  obtain ⟨hout, -, hm⟩ := C04_checked_ok gaussInv out h
+  rw [hout]
+  exact C04_identical_refs hs hp C04_gaussInv_contract hm hn hR hG
+
+end checked
+
 /-! ## Non-vacuity (kernel-evaluated over `ℚ`) -/
 section examples
 def exG : Mat ℚ := ⟨2, 2, fun i j => if i = 0 then (if j = 0 then 0 else 2) else (if j = 0 then 1 else 3)⟩
@@ -79,6 +117,28 @@ example : (gaussInv exG).map (fun W => (W.e 0 0, W.e 0 1, W.e 1 0, W.e 1 1)) = s
 def exSing : Mat ℚ := ⟨2, 2, fun i j => ((i + 1 : Nat) : ℚ) * ((j + 1 : Nat) : ℚ)⟩
 example : (gaussInv exSing).isNone = true := by decide +kernel
 example : exG.r = exG.c := rfl
+
+/-- the hypotheses of `C04_identical_refs_checked` hold jointly: the toy estimator and the two
+    setups of `Props/C04.lean`; the checked model with `gaussInv` returns a value … -/
+theorem exChecked_ok : ∃ out, sdPreGERchecked (exSd (K := ℚ)) gaussInv 100 8 (1/4) .per 2 exY = .ok out := by
+  cases h : sdPreGERchecked (exSd (K := ℚ)) gaussInv 100 8 (1/4) .per 2 exY with
+  | ok out => exact ⟨out, rfl⟩
+  | error e =>
+    have : (sdPreGERchecked (exSd (K := ℚ)) gaussInv 100 8 (1/4) .per 2 exY).isOk = true := by
+      decide +kernel
+    rw [h] at this; cases this
+
+/-- … and the remaining hypotheses are those of the `C04_identical_refs` instance. -/
+example : ∀ out, sdPreGERchecked (exSd (K := ℚ)) gaussInv 100 8 (1/4) .per 2 exY = .ok out →
+    out.S.n1 = 1 := fun out h =>
+  (C04_identical_refs_checked (K := ℚ) (sd := exSd) (fs := 100) (nxseg := 8) (pov := 1/4)
+    (method := .per) (n := 2) (Y := exY) exShape exPair (by norm_num) (fun _ _ => rfl)
+    (fun f _ => one_by_one _ rfl rfl (by
+      show (exSd _ _ (exY 0).ref).S.e 0 0 f ≠ 0
+      rw [exRefSpec (sdArgs 100 8 .per (1/4))
+        (Mat.vstack2 (exY 0).ref (Mat.vstackFn 2 fun k => (exY k).mov)) rfl rfl f]
+      simp only [sdArgs]
+      positivity)) out h).2.2.1
 end examples
 
 end PV.C04
